@@ -215,6 +215,34 @@ pub fn run_std_genesis(run: &Run, depth: usize) {
 /// Long scripted histories: one path per schedule, each a cycle of label prefixes repeated several times (a pool created, used,
 /// emptied and used again; deposits and swaps under changing proposer actions; restarts in between).  Depth-bounded search
 /// cannot reach 60-step histories; these are a deterministic family of long paths through the same engine and oracles.
+/// `want` is a label prefix, optionally followed by `~` and a string the label must also contain
+/// (`swap[MEL/C~(C` = a swap against a MEL/custom-token pool that sells the token).
+pub fn label_matches(label: &str, want: &str) -> bool {
+    match want.split_once('~') {
+        Some((pre, has)) => label.starts_with(pre) && label.contains(has),
+        None => label.starts_with(want),
+    }
+}
+
+/// Drives `root` through a script of label patterns (steps that are not available or not accepted are skipped) and returns
+/// the nodes visited (root first) with the action that led to each later one.
+pub fn drive_script(eng: &Engine, root: Node, cfg: &AlphaCfg, wants: &[&str]) -> (Vec<Node>, Vec<Action>) {
+    let mut nodes = vec![root];
+    let mut acts_taken = vec![];
+    for want in wants {
+        let cur = nodes.last().unwrap().clone();
+        let acts = actions(&cur, cfg);
+        let found = if *want == "restart" && !cur.is_open() { Some(Action::Restart) } else { acts.iter().find(|a| label_matches(&a.label(), want)).cloned() };
+        if let Some(a) = found.as_ref() {
+            if let StepOut::Next(n) = eng.step(&cur, a) {
+                nodes.push(n);
+                acts_taken.push(a.clone());
+            }
+        }
+    }
+    (nodes, acts_taken)
+}
+
 pub fn long_histories(run: &Run, thorough: bool) {
     let mut cfg = crate::props::c01::pool_cfg();
     cfg.splits = true;
@@ -224,8 +252,11 @@ pub fn long_histories(run: &Run, thorough: bool) {
     cfg.seal_actions = vec![None, Some(crate::alphabet::action_dest(1)), Some(melstructs::ProposerAction { fee_multiplier_delta: -128, reward_dest: addr_true() }), Some(melstructs::ProposerAction { fee_multiplier_delta: 127, reward_dest: addr_true2() })];
     let schedules: Vec<(&str, NetID, u128, Vec<&str>)> = vec![
         ("user pool: create, trade, empty, re-create", NetID::Custom02, 0, vec![
-            "open", "mint(", "seal(None)", "open", "deposit[MEL/C", "seal(delta=1", "open", "swap[MEL/C", "swap[MEL/C", "seal(None)", "open", "withdraw[MEL/C", "seal(delta=-128",
-            "restart", "open", "deposit[MEL/C", "xfer(", "seal(delta=127", "open", "swap[MEL/C", "seal(None)", "open", "withdraw[MEL/C", "overpay(", "seal(delta=1",
+            // (the token is sold into the pool first: its MEL reserve falls below the liquidity it issued; then a swap against the
+            // emptied pool, which is left alone; after the re-creation the MEL side is sold, the reserve rises above the liquidity)
+            "open", "mint(", "seal(None)", "open", "deposit[MEL/C", "seal(delta=1", "open", "swap[MEL/C~(C", "seal(None)", "open", "withdraw[MEL/C", "seal(delta=-128",
+            "open", "swap[MEL/C~(MEL", "seal(None)",
+            "restart", "open", "deposit[MEL/C", "xfer(", "seal(delta=127", "open", "swap[MEL/C~(MEL", "swap[MEL/C~(MEL", "seal(None)", "open", "withdraw[MEL/C", "overpay(", "seal(delta=1",
         ]),
         ("built-in pools under fees", NetID::Custom02, 65536, vec![
             "open", "deposit[MEL/SYM", "seal(delta=127", "open", "swap[MEL/SYM", "swap[ERG/MEL", "seal(None)", "open", "deposit[ERG/SYM", "overpay(", "seal(delta=-128", "restart",
@@ -247,13 +278,17 @@ pub fn long_histories(run: &Run, thorough: bool) {
         let mut c = cfg.clone();
         c.faucets = net != NetID::Custom02;
         let (mut taken, mut skipped, mut stopped) = (0u64, 0u64, false);
+        let mut unavailable: std::collections::BTreeMap<String, u64> = Default::default();
         'outer: for _ in 0..repeats {
             for want in &cycle {
                 let acts = actions(&node, &c);
-                let a = match acts.iter().find(|a| a.label().starts_with(want)) {
+                // (the search allows one restart per path; a script restarts as often as it says)
+                let found = if *want == "restart" && !node.is_open() { Some(Action::Restart) } else { acts.iter().find(|a| label_matches(&a.label(), want)).cloned() };
+                let a = match found.as_ref() {
                     Some(a) => a.clone(),
                     None => {
                         skipped += 1;
+                        *unavailable.entry(want.to_string()).or_default() += 1;
                         continue;
                     }
                 };
@@ -262,7 +297,10 @@ pub fn long_histories(run: &Run, thorough: bool) {
                         node = n;
                         taken += 1;
                     }
-                    StepOut::Rejected => skipped += 1,
+                    StepOut::Rejected => {
+                        skipped += 1;
+                        *unavailable.entry(format!("{} (rejected)", want)).or_default() += 1;
+                    }
                     StepOut::Pruned => {
                         stopped = true;
                         break 'outer;
@@ -271,7 +309,7 @@ pub fn long_histories(run: &Run, thorough: bool) {
             }
         }
         run.states_add(taken);
-        run.set(&format!("long_history:{}", name), json!({"network": format!("{:?}", net), "fee_multiplier": fm.to_string(), "steps_taken": taken, "steps_not_available": skipped, "stopped_by_a_reported_mismatch": stopped, "final_height": node.model.height}));
+        run.set(&format!("long_history:{}", name), json!({"network": format!("{:?}", net), "fee_multiplier": fm.to_string(), "steps_taken": taken, "steps_not_available": skipped, "not_available": unavailable, "stopped_by_a_reported_mismatch": stopped, "final_height": node.model.height}));
         println!("  long history '{}': {} steps taken, {} not available, height {}{}", name, taken, skipped, node.model.height, if stopped { " (stopped: engine reported)" } else { "" });
     }
 }
